@@ -3,9 +3,13 @@
    delta/alpha and the per-instruction state changes), not from interpreter.go:
 
      STOP, the 25 ALU instructions (by their mathematical definition Word.m_alu), POP, PUSH0..PUSH32, DUP1..16, SWAP1..16,
-     JUMP, JUMPI, JUMPDEST, PC, GAS, MSIZE, MLOAD, MSTORE, MSTORE8, SLOAD, SSTORE, RETURN, REVERT, invalid opcodes.
+     JUMP, JUMPI, JUMPDEST, PC, GAS, MSIZE, MLOAD, MSTORE, MSTORE8, SLOAD, SSTORE, RETURN, REVERT, invalid opcodes,
+     and the reads of the execution environment I / block header H (9.3): ADDRESS (I_a), ORIGIN (I_o), CALLER (I_s),
+     CALLVALUE (I_v), CALLDATASIZE, CALLDATALOAD (I_d), CODESIZE (I_b), GASPRICE (I_p), RETURNDATASIZE (mu_o), COINBASE,
+     TIMESTAMP, NUMBER, DIFFICULTY, GASLIMIT, CHAINID, BASEFEE — the environment is the pair of records (env, ctx).
 
-   Everything else (calls, creations, copies, logs, environment reads) is "outside": the reference says nothing about it.
+   Everything else (calls, creations, SELFDESTRUCT, the copy instructions, logs, account reads, SHA3) is "outside": a reference
+   run stops with RR_outside pc i at the first such instruction and says nothing about what follows.
    Shared with the model (and therefore NOT independently specified): the opcode table (decode_at), the byte layout of memory
    words and PUSH operands (word_bytes, be_to_z, mwrite, mslice, push_bytes), the SWAP permutation on lists, the containers for
    storage and logs (storage is constrained extensionally through sload).  Independent: delta/alpha, the exceptional-halting
@@ -22,7 +26,9 @@ Open Scope Z_scope.
 Definition in_fragment (i : instr) : bool :=
   match i with
   | I_STOP | I_ALU _ | I_POP | I_PUSH _ | I_DUP _ | I_SWAP _ | I_JUMP | I_JUMPI | I_JUMPDEST | I_PC | I_GAS | I_MSIZE
-  | I_MLOAD | I_MSTORE | I_MSTORE8 | I_SLOAD | I_SSTORE | I_RETURN | I_REVERT => true
+  | I_MLOAD | I_MSTORE | I_MSTORE8 | I_SLOAD | I_SSTORE | I_RETURN | I_REVERT
+  | I_ADDRESS | I_ORIGIN | I_CALLER | I_CALLVALUE | I_CALLDATASIZE | I_CALLDATALOAD | I_CODESIZE | I_GASPRICE
+  | I_RETURNDATASIZE | I_COINBASE | I_TIMESTAMP | I_NUMBER | I_DIFFICULTY | I_GASLIMIT | I_CHAINID | I_BASEFEE => true
   | _ => false
   end.
 
@@ -32,7 +38,7 @@ Definition R_delta (i : instr) : Z :=
   | I_ALU A_ISZERO | I_ALU A_NOT => 1
   | I_ALU A_ADDMOD | I_ALU A_MULMOD => 3
   | I_ALU _ => 2
-  | I_POP | I_JUMP | I_MLOAD | I_SLOAD => 1
+  | I_POP | I_JUMP | I_MLOAD | I_SLOAD | I_CALLDATALOAD => 1
   | I_MSTORE | I_MSTORE8 | I_SSTORE | I_JUMPI | I_RETURN | I_REVERT => 2
   | I_DUP n => n
   | I_SWAP n => n + 1
@@ -40,7 +46,9 @@ Definition R_delta (i : instr) : Z :=
   end.
 Definition R_alpha (i : instr) : Z :=
   match i with
-  | I_ALU _ | I_MLOAD | I_SLOAD | I_PUSH _ | I_PC | I_GAS | I_MSIZE => 1
+  | I_ALU _ | I_MLOAD | I_SLOAD | I_PUSH _ | I_PC | I_GAS | I_MSIZE
+  | I_ADDRESS | I_ORIGIN | I_CALLER | I_CALLVALUE | I_CALLDATASIZE | I_CALLDATALOAD | I_CODESIZE | I_GASPRICE
+  | I_RETURNDATASIZE | I_COINBASE | I_TIMESTAMP | I_NUMBER | I_DIFFICULTY | I_GASLIMIT | I_CHAINID | I_BASEFEE => 1
   | I_DUP n => n + 1
   | I_SWAP n => n + 1
   | _ => 0
@@ -77,12 +85,14 @@ Definition R_instr_cost (cx : ctx) (s : mstate) (i : instr) : Z :=
   let st := s_stack s in
   match i with
   | I_STOP | I_RETURN | I_REVERT => G_zero
-  | I_POP | I_PC | I_GAS | I_MSIZE => G_base
+  | I_POP | I_PC | I_GAS | I_MSIZE
+  | I_ADDRESS | I_ORIGIN | I_CALLER | I_CALLVALUE | I_CALLDATASIZE | I_CODESIZE | I_GASPRICE | I_RETURNDATASIZE
+  | I_COINBASE | I_TIMESTAMP | I_NUMBER | I_DIFFICULTY | I_GASLIMIT | I_CHAINID | I_BASEFEE => G_base
   | I_PUSH n => if n =? 0 then G_base else G_verylow
   | I_ALU A_MUL | I_ALU A_DIV | I_ALU A_SDIV | I_ALU A_MOD | I_ALU A_SMOD | I_ALU A_SIGNEXTEND => G_low
   | I_ALU A_ADDMOD | I_ALU A_MULMOD => G_mid
   | I_ALU A_EXP => G_exp + G_expbyte * exp_bytes (nthz st 1)
-  | I_ALU _ | I_DUP _ | I_SWAP _ | I_MLOAD | I_MSTORE | I_MSTORE8 => G_verylow
+  | I_ALU _ | I_DUP _ | I_SWAP _ | I_MLOAD | I_MSTORE | I_MSTORE8 | I_CALLDATALOAD => G_verylow
   | I_JUMP => G_mid
   | I_JUMPI => G_high
   | I_JUMPDEST => G_jumpdest
@@ -111,7 +121,7 @@ Definition R_mem (s : mstate) (i : instr) : list Z :=
   if (0 <? n) && (s_msize s <? n) then s_mem s ++ zeros (n - s_msize s) else s_mem s.
 
 (* appendix H: the machine state after a non-halting instruction *)
-Definition R_effect (cx : ctx) (s : mstate) (i : instr) (s' : mstate) : Prop :=
+Definition R_effect (E : env) (cx : ctx) (s : mstate) (i : instr) (s' : mstate) : Prop :=
   let st := s_stack s in
   let a := nthz st 0 in let b := nthz st 1 in let c := nthz st 2 in
   let rest := dropz (R_delta i) st in
@@ -136,6 +146,23 @@ Definition R_effect (cx : ctx) (s : mstate) (i : instr) (s' : mstate) : Prop :=
                 | I_MSIZE => (s_msize s) mod W :: st
                 | I_MLOAD => (be_to_z (mslice m a 32)) mod W :: rest
                 | I_SLOAD => (sload (s_world s) (c_addr cx) a) mod W :: rest
+                (* environment: I_a, I_o, I_s, I_v, |I_d|, I_d[a..a+31] (zero beyond the end), |I_b|, I_p, |mu_o|, block header *)
+                | I_ADDRESS => (c_addr cx) mod W :: st
+                | I_ORIGIN => (e_origin E) mod W :: st
+                | I_CALLER => (c_caller cx) mod W :: st
+                | I_CALLVALUE => (c_value cx) mod W :: st
+                | I_CALLDATASIZE => (zlen (c_input cx)) mod W :: st
+                | I_CALLDATALOAD => (if a <? W64 then be_to_z (get_data (c_input cx) a 32) else 0) mod W :: rest
+                | I_CODESIZE => (zlen (c_code cx)) mod W :: st
+                | I_GASPRICE => (e_gasprice E) mod W :: st
+                | I_RETURNDATASIZE => (zlen (s_ret s)) mod W :: st
+                | I_COINBASE => (e_coinbase E) mod W :: st
+                | I_TIMESTAMP => (e_timestamp E) mod W :: st
+                | I_NUMBER => (e_number E) mod W :: st
+                | I_DIFFICULTY => (e_difficulty E) mod W :: st
+                | I_GASLIMIT => (e_gaslimit E) mod W :: st
+                | I_CHAINID => (e_chainid E) mod W :: st
+                | I_BASEFEE => (e_basefee E) mod W :: st
                 | _ => rest
                 end) /\
   (* memory *)
@@ -155,14 +182,16 @@ Definition R_effect (cx : ctx) (s : mstate) (i : instr) (s' : mstate) : Prop :=
    | _ => s_world s' = s_world s
    end).
 
-Inductive rres := RR_fail | RR_outside | RR_done (o : outcome) (data : list Z) (gas : Z) (w : world).
+(* RR_outside pc i: the reference stops, silent, at program counter pc where instruction i (outside the fragment) stands *)
+Inductive rres := RR_fail | RR_outside (pc : Z) (i : instr) | RR_done (o : outcome) (data : list Z) (gas : Z) (w : world).
 Inductive rstep := RS_to (s' : mstate) | RS_stop (r : rres).
 
 Definition fetch (cx : ctx) (s : mstate) : Z := if s_pc s <? zlen (c_code cx) then nthz (c_code cx) (s_pc s) else 0.
 
 Inductive ref_step (E : env) (cx : ctx) (s : mstate) : rstep -> Prop :=
   | RS_invalid : decode_at (e_fork E) (fetch cx s) = None -> ref_step E cx s (RS_stop RR_fail)
-  | RS_outside i : decode_at (e_fork E) (fetch cx s) = Some i -> in_fragment i = false -> ref_step E cx s (RS_stop RR_outside)
+  | RS_outside i : decode_at (e_fork E) (fetch cx s) = Some i -> in_fragment i = false ->
+      ref_step E cx s (RS_stop (RR_outside (s_pc s) i))
   | RS_exc i : decode_at (e_fork E) (fetch cx s) = Some i -> in_fragment i = true -> R_exceptional cx s i ->
       ref_step E cx s (RS_stop RR_fail)
   | RS_halt i : decode_at (e_fork E) (fetch cx s) = Some i -> ~ R_exceptional cx s i ->
@@ -173,7 +202,7 @@ Inductive ref_step (E : env) (cx : ctx) (s : mstate) : rstep -> Prop :=
       ref_step E cx s (RS_stop (RR_done o data (s_gas s - R_cost cx s i) (s_world s)))
   | RS_ok i s' : decode_at (e_fork E) (fetch cx s) = Some i -> in_fragment i = true ->
       i <> I_STOP -> i <> I_RETURN -> i <> I_REVERT ->
-      ~ R_exceptional cx s i -> R_effect cx s i s' -> ref_step E cx s (RS_to s').
+      ~ R_exceptional cx s i -> R_effect E cx s i s' -> ref_step E cx s (RS_to s').
 
 (* big step: the reflexive-transitive closure up to a stop *)
 Inductive ref_run (E : env) (cx : ctx) : mstate -> rres -> Prop :=
